@@ -133,6 +133,13 @@ type Case struct {
 	User    *string  `json:"user,omitempty"`
 	Req     *Req     `json:"req,omitempty"`
 	Ops     []Step   `json:"ops"`
+	// a second, overlapping call on the same server from the same peer address
+	// (step "sub2"); View selects whose observations this entry carries
+	Req2  *Req    `json:"req2,omitempty"`
+	User2 *string `json:"user2,omitempty"`
+	View  string  `json:"view,omitempty"`
+	// Perturb: yield at the insert schedule point of the coalescing queue
+	Perturb bool `json:"perturb,omitempty"`
 	// TimeoutMS > 0: the server is built with subscribe.WithTimeout (the send
 	// timeout; armed only while a Send is in progress, so idle gaps longer than
 	// it must not matter).  IdleEndMS: idle gap before the client ends the
@@ -260,10 +267,11 @@ func (a *fakeACL) NewRPCACL(ctx context.Context) (subscribe.RPCACL, error) {
 
 type memStream struct {
 	grpc.ServerStream
-	ctx  context.Context
-	reqs chan *pb.SubscribeRequest
-	mu   sync.Mutex
-	cur  []OResp
+	ctx   context.Context
+	reqs  chan *pb.SubscribeRequest
+	mu    sync.Mutex
+	cur   []OResp
+	syncs int64 // sync responses sent so far (atomic)
 }
 
 func (s *memStream) Context() context.Context { return s.ctx }
@@ -281,6 +289,7 @@ func (s *memStream) Send(r *pb.SubscribeResponse) error {
 	switch v := r.GetResponse().(type) {
 	case *pb.SubscribeResponse_SyncResponse:
 		o = OResp{Sync: true}
+		atomic.AddInt64(&s.syncs, 1)
 		if !v.SyncResponse {
 			o = OResp{N: &Noti{TS: weird}}
 		}
@@ -317,9 +326,14 @@ type gstate struct {
 	blocked       int // of those: parked in a select or a channel receive
 	parkedSenders int // parked in the select of coalesce.Queue.Next
 	parkedPollers int // parked in the stream's Recv below processPollingSubscription
+	ids           []string
 }
 
 var stackBuf = make([]byte, 1<<20)
+
+// goroutines leaked by earlier cases that hung (a wedged cache keeps its walker
+// and writers blocked for ever); they are not counted again.
+var ignoredG = map[string]bool{}
 
 func goroutineStates() gstate {
 	n := runtime.Stack(stackBuf, true)
@@ -333,7 +347,15 @@ func goroutineStates() gstate {
 		if !bytes.Contains(body, []byte("gnmi/subscribe.(*Server).")) {
 			continue
 		}
+		id := ""
+		if f := bytes.Fields(head); len(f) > 1 {
+			id = string(f[1])
+		}
+		if ignoredG[id] {
+			continue
+		}
 		g.server++
+		g.ids = append(g.ids, id)
 		st := ""
 		if i := bytes.IndexByte(head, '['); i >= 0 {
 			st = string(head[i+1:])
@@ -360,31 +382,61 @@ func pause(i int) {
 	}
 }
 
-// settle waits until the subscriber is quiescent; false = watchdog expired.
-func settle(done <-chan struct{}, limit time.Duration) bool {
+// one Subscribe call in flight
+type rpc struct {
+	st         *memStream
+	cancel     context.CancelFunc
+	done       chan struct{}
+	err        error
+	panicked   bool
+	started    bool
+	closedReqs bool
+	req        *Req
+}
+
+func (r *rpc) returned() bool {
+	select {
+	case <-r.done:
+		return true
+	default:
+		return false
+	}
+}
+
+// settle waits until every started RPC is quiescent (returned with no goroutine
+// left but a poller parked in Recv, or: every goroutine of the server parked and
+// one sender per live RPC waiting for an item); false = watchdog expired.
+func settle(rpcs []*rpc, limit time.Duration) bool {
 	t0 := time.Now()
 	for i := 0; ; i++ {
-		returned := false
-		select {
-		case <-done:
-			returned = true
-		default:
+		started, live := 0, 0
+		for _, r := range rpcs {
+			if r.started {
+				started++
+				if !r.returned() {
+					live++
+				}
+			}
+		}
+		if started == 0 {
+			return true
 		}
 		g := goroutineStates()
-		if returned {
-			// only a poller parked in Recv may be left
+		if live == 0 {
 			if g.server == g.parkedPollers {
 				return true
 			}
-		} else if g.server > 0 && g.server == g.blocked && g.parkedSenders == 1 {
-			// every goroutine of the RPC (Subscribe on errC, sender, its timer
-			// goroutine, a poller) is parked and the sender waits for an item
-			select {
-			case <-done:
-				continue
-			default:
+		} else if g.server == g.blocked && g.parkedSenders == live {
+			still := 0
+			for _, r := range rpcs {
+				if r.started && !r.returned() {
+					still++
+				}
 			}
-			return true
+			if still == live {
+				return true
+			}
+			continue
 		}
 		if i%64 == 63 && time.Since(t0) > limit {
 			return false
@@ -452,15 +504,16 @@ func statusName(err error) string {
 }
 
 // watchdog for a subscriber that never becomes quiescent / an RPC that never
-// returns.  Generous (other checks load the machine), but after a few hangs
-// in one run it is shortened so that a tree that hangs everywhere still ends.
-var watchdog = 15 * time.Second
+// returns (e.g. a walk deadlocked with a writer).  After a few hangs in one
+// run it is shortened so that a tree that hangs everywhere still ends.
+var watchdog = 6 * time.Second
 var hangs int
 
 func noteHang() {
 	hangs++
+	watchdog = 1500 * time.Millisecond
 	if hangs >= 3 {
-		watchdog = time.Second
+		watchdog = 500 * time.Millisecond
 	}
 }
 
@@ -485,18 +538,28 @@ func pbRequest(r *Req) *pb.SubscribeRequest {
 // insertCount counts coalesce.Queue.Insert calls (hook point insert:checked).
 var insertCount int64
 
+// perturb (Case.Perturb): every queue insert of the case yields for a moment at
+// the schedule point between Insert's closed/emptiness checks and the locked
+// insert, so that the sender can drain the queue and park in Next in between.
+var perturb int32
+
 func installHooks() {
 	coalesce.VerifHook = func(p string) {
 		if p == "insert:checked" {
 			atomic.AddInt64(&insertCount, 1)
+			if atomic.LoadInt32(&perturb) != 0 {
+				for t0 := time.Now(); time.Since(t0) < 40*time.Microsecond; {
+					runtime.Gosched()
+				}
+			}
 		}
 	}
 }
 
 // normaliseBursts makes the burst flags well formed (a shrunk or hand-written
 // script may have lost members): a maximal run of flagged steps becomes
-// 1,…,1,2; a run of one step, a run containing a poll, and a Subscribe step that
-// is not the first member of its run are unflagged.
+// 1,…,1,2; a run of one step, and a run with a Subscribe step or poll trigger
+// that is not its first member, are unflagged.
 func normaliseBursts(ops []Step) {
 	for i := 0; i < len(ops); {
 		if ops[i].Burst == 0 {
@@ -506,7 +569,7 @@ func normaliseBursts(ops []Step) {
 		j := i
 		ok := true
 		for j < len(ops) && ops[j].Burst != 0 {
-			if ops[j].K == "poll" || (ops[j].K == "sub" && j > i) {
+			if (ops[j].K == "poll" || ops[j].K == "sub" || ops[j].K == "sub2") && j > i {
 				ok = false
 			}
 			last := ops[j].Burst == 2
@@ -515,7 +578,7 @@ func normaliseBursts(ops []Step) {
 				break
 			}
 		}
-		if j-i < 2 || !ok {
+		if j-i < 2 || !ok || ops[i].K == "sub2" {
 			for k := i; k < j; k++ {
 				ops[k].Burst = 0
 			}
@@ -529,7 +592,22 @@ func normaliseBursts(ops []Step) {
 	}
 }
 
-func runScript(c *Case, withACL bool) *Run {
+func opTarget(op Step) string {
+	if op.K == "update" {
+		return op.N.Prefix.Target
+	}
+	return op.Target
+}
+
+// runScript executes the script of c on one cache and one server.  It returns
+// one Run per RPC of the script: the call of step "sub" (request c.Req, user
+// c.User) and, if there is a step "sub2", a second call on the same server from
+// the same peer address (request c.Req2, user c.User2) that overlaps the first.
+func runScript(c *Case, withACL bool) []*Run {
+	if c.Perturb {
+		atomic.StoreInt32(&perturb, 1)
+		defer atomic.StoreInt32(&perturb, 0)
+	}
 	cache.Now = func() time.Time { return time.Unix(0, fakeNow) }
 	ca := cache.New(c.Targets)
 	var opts []subscribe.Option
@@ -542,64 +620,96 @@ func runScript(c *Case, withACL bool) *Run {
 	srv, _ := subscribe.NewServer(ca, opts...)
 	ca.SetClient(srv.Update)
 
-	ctx := peer.NewContext(context.Background(), &peer.Peer{Addr: &net.TCPAddr{IP: net.IPv4(127, 0, 0, 1), Port: 1}})
-	if c.User != nil {
-		ctx = context.WithValue(ctx, userKey{}, *c.User)
+	// both callers arrive from the same peer address
+	base := peer.NewContext(context.Background(), &peer.Peer{Addr: &net.TCPAddr{IP: net.IPv4(127, 0, 0, 1), Port: 1}})
+	mk := func(user *string, req *Req) *rpc {
+		ctx := base
+		if user != nil {
+			ctx = context.WithValue(ctx, userKey{}, *user)
+		}
+		ctx, cancel := context.WithCancel(ctx)
+		return &rpc{st: &memStream{ctx: ctx, reqs: make(chan *pb.SubscribeRequest, 8)}, cancel: cancel, done: make(chan struct{}), req: req}
 	}
-	ctx, cancel := context.WithCancel(ctx)
-	st := &memStream{ctx: ctx, reqs: make(chan *pb.SubscribeRequest, 8)}
-	done := make(chan struct{})
-	var rpcErr error
-	rpcPanic := false
-	started, closedReqs, hung := false, false, false
+	rpcs := []*rpc{mk(c.User, c.Req)}
+	two := false
+	for _, op := range c.Ops {
+		if op.K == "sub2" {
+			two = true
+		}
+	}
+	if two {
+		rpcs = append(rpcs, mk(c.User2, c.Req2))
+	}
+	runs := make([]*Run, len(rpcs))
+	for i := range runs {
+		runs[i] = &Run{}
+	}
+	hung := false
 
-	run := &Run{}
 	applyCache := func(op Step, ob *OObs) {
 		defer func() {
 			if r := recover(); r != nil {
 				ob.CRes = "panic"
 			}
 		}()
-		if op.K == "update" {
+		switch op.K {
+		case "update":
 			if err := ca.GnmiUpdate(pbNoti(op.N)); err != nil {
 				ob.CRes = "err"
 			}
-		} else {
+		case "remove":
 			fakeNow = op.Now
 			ca.Remove(op.Target)
+		case "addtarget":
+			ca.Add(op.Target)
+		case "churn":
+			ca.Remove(op.Target)
+			ca.Add(op.Target)
 		}
 	}
-	startRPC := func() {
-		started = true
-		if c.Req != nil {
-			st.reqs <- pbRequest(c.Req)
+	startRPC := func(r *rpc) {
+		r.started = true
+		if r.req != nil {
+			r.st.reqs <- pbRequest(r.req)
 		} else {
-			close(st.reqs)
-			closedReqs = true
+			close(r.st.reqs)
+			r.closedReqs = true
 		}
 		go func() {
-			defer close(done)
+			defer close(r.done)
 			defer func() {
-				if r := recover(); r != nil {
-					rpcPanic = true
+				if x := recover(); x != nil {
+					r.panicked = true
 				}
 			}()
-			rpcErr = srv.Subscribe(st)
+			r.err = srv.Subscribe(r.st)
 		}()
 	}
 	waitQuiet := func() {
-		if started && !hung {
-			if !settle(done, watchdog) {
-				hung = true
-				noteHang()
+		if !hung && !settle(rpcs, watchdog) {
+			hung = true
+			noteHang()
+		}
+	}
+	// record appends one observation per RPC for a step
+	record := func(ob OObs, withGroup bool) {
+		for i, r := range rpcs {
+			o := ob
+			if withGroup {
+				o.Group = r.st.take()
 			}
+			runs[i].Obs = append(runs[i].Obs, o)
 		}
 	}
 	normaliseBursts(c.Ops)
 	for i := 0; i < len(c.Ops); i++ {
 		op := c.Ops[i]
+		if hung {
+			// the subscriber (or the cache) is stuck: nothing more is executed
+			record(OObs{CRes: "ok", Burst: op.Burst}, false)
+			continue
+		}
 		if op.Burst != 0 {
-			// the members of the burst
 			j := i
 			for j < len(c.Ops) && c.Ops[j].Burst == 1 {
 				j++
@@ -609,23 +719,20 @@ func runScript(c *Case, withACL bool) *Run {
 			for k := range obs {
 				obs[k] = OObs{CRes: "ok", Burst: members[k].Burst}
 			}
-			if members[0].K == "sub" && !started {
+			walk := (members[0].K == "sub" && !rpcs[0].started) ||
+				(members[0].K == "poll" && rpcs[0].started && !rpcs[0].closedReqs && !rpcs[0].returned())
+			if members[0].K == "sub" || members[0].K == "poll" {
 				obs[0].HasDump = true
 				obs[0].Dump = dumpCache(ca, c.Targets)
 			}
 			base := atomic.LoadInt64(&insertCount)
+			syncs0 := atomic.LoadInt64(&rpcs[0].st.syncs)
 			perTarget := map[string][]int{}
 			var order []string
 			for k, m := range members {
 				switch m.K {
-				case "update":
-					t := m.N.Prefix.Target
-					if _, ok := perTarget[t]; !ok {
-						order = append(order, t)
-					}
-					perTarget[t] = append(perTarget[t], k)
-				case "remove":
-					t := m.Target
+				case "update", "remove", "addtarget", "churn":
+					t := opTarget(m)
 					if _, ok := perTarget[t]; !ok {
 						order = append(order, t)
 					}
@@ -639,110 +746,152 @@ func runScript(c *Case, withACL bool) *Run {
 				go func() {
 					defer wg.Done()
 					for _, k := range idx {
+						m := members[k]
 						t0 := time.Now()
-						for n := 0; atomic.LoadInt64(&insertCount)-base < int64(members[k].Gate) && time.Since(t0) < 300*time.Microsecond; n++ {
+						if m.K == "churn" {
+							// Remove/Add in a loop for as long as the walk runs
+							for n := 0; ; n++ {
+								applyCache(m, &obs[k])
+								if n >= 50 && (!walk || atomic.LoadInt64(&rpcs[0].st.syncs) > syncs0 || rpcs[0].returned() || time.Since(t0) > 50*time.Millisecond) {
+									break
+								}
+							}
+							continue
+						}
+						for n := 0; atomic.LoadInt64(&insertCount)-base < int64(m.Gate) && time.Since(t0) < 300*time.Microsecond; n++ {
 							runtime.Gosched()
 						}
-						applyCache(members[k], &obs[k])
+						applyCache(m, &obs[k])
 					}
 				}()
 			}
-			if members[0].K == "sub" && !started {
-				startRPC()
+			switch {
+			case members[0].K == "sub" && !rpcs[0].started:
+				startRPC(rpcs[0])
+			case members[0].K == "poll" && walk:
+				rpcs[0].st.reqs <- &pb.SubscribeRequest{Request: &pb.SubscribeRequest_Poll{Poll: &pb.Poll{}}}
 			}
-			wg.Wait()
-			waitQuiet()
+			writersDone := make(chan struct{})
+			go func() { wg.Wait(); close(writersDone) }()
+			select {
+			case <-writersDone:
+				waitQuiet()
+			case <-time.After(watchdog):
+				hung = true // a writer never came back: the cache is wedged
+				noteHang()
+			}
 			last := len(obs) - 1
-			obs[last].Group = st.take()
-			obs[last].HasDump = true
-			obs[last].Dump = dumpCache(ca, c.Targets)
-			run.Obs = append(run.Obs, obs...)
+			if !hung {
+				obs[last].HasDump = true
+				obs[last].Dump = dumpCache(ca, c.Targets)
+			}
+			for k := range obs {
+				record(obs[k], k == len(obs)-1) // the last member carries everything recorded during the burst
+			}
 			i = j
 			continue
 		}
-		if op.IdleMS > 0 && started {
+		if op.IdleMS > 0 && rpcs[0].started {
 			time.Sleep(time.Duration(op.IdleMS) * time.Millisecond) // a lower bound is all that matters
 		}
 		ob := OObs{CRes: "ok"}
 		switch op.K {
-		case "update", "remove":
+		case "update", "remove", "addtarget", "churn":
 			applyCache(op, &ob)
 		case "sub":
-			if started {
-				break
+			if !rpcs[0].started {
+				startRPC(rpcs[0])
 			}
-			startRPC()
+			ob.HasDump = true
+		case "sub2":
+			if two && !rpcs[1].started {
+				startRPC(rpcs[1])
+			}
 			ob.HasDump = true
 		case "poll":
-			if started && !closedReqs {
-				select {
-				case <-done:
-				default:
-					st.reqs <- &pb.SubscribeRequest{Request: &pb.SubscribeRequest_Poll{Poll: &pb.Poll{}}}
-				}
+			if r := rpcs[0]; r.started && !r.closedReqs && !r.returned() {
+				r.st.reqs <- &pb.SubscribeRequest{Request: &pb.SubscribeRequest_Poll{Poll: &pb.Poll{}}}
 			}
 			ob.HasDump = true
 		}
 		waitQuiet()
-		ob.Group = st.take()
-		if ob.HasDump {
+		if ob.HasDump && !hung {
 			ob.Dump = dumpCache(ca, c.Targets)
+		} else {
+			ob.HasDump = false
 		}
-		run.Obs = append(run.Obs, ob)
+		record(ob, true)
 	}
-	// end of script: close the request stream (EOF for a poller), then cancel
-	if started {
-		if c.IdleEndMS > 0 {
-			time.Sleep(time.Duration(c.IdleEndMS) * time.Millisecond)
+	// end of script: the clients end their calls (EOF for a poller, then cancel)
+	if c.IdleEndMS > 0 && rpcs[0].started && !hung {
+		time.Sleep(time.Duration(c.IdleEndMS) * time.Millisecond)
+	}
+	for i, r := range rpcs {
+		run := runs[i]
+		if !r.started {
+			r.cancel()
+			run.Status = "none"
+			continue
 		}
-		if !closedReqs {
-			close(st.reqs)
+		if !r.closedReqs {
+			close(r.st.reqs)
+		}
+		limit := watchdog
+		if hung {
+			limit = 200 * time.Millisecond
 		}
 		returned := false
-		if c.Req != nil && c.Req.Mode == 2 && !hung {
+		if r.req != nil && r.req.Mode == 2 && !hung {
 			// a POLL ends by EOF
-			t0 := time.Now()
-			for i := 0; time.Since(t0) < watchdog; i++ {
-				select {
-				case <-done:
-					returned = true
-				default:
-				}
-				if returned {
-					break
-				}
-				pause(i)
+			select {
+			case <-r.done:
+				returned = true
+			case <-time.After(limit):
 			}
 		}
-		cancel()
+		r.cancel()
 		if !returned {
 			select {
-			case <-done:
+			case <-r.done:
 				returned = true
-			case <-time.After(watchdog):
+			case <-time.After(limit):
 			}
 		}
 		switch {
 		case hung || !returned:
 			run.Status = "hang"
-		case rpcPanic:
+		case r.panicked:
 			run.Status = "panic"
 		default:
-			run.Status = statusName(rpcErr)
+			run.Status = statusName(r.err)
 		}
-		if !drainServer(watchdog) {
-			run.Status = "hang"
-		}
-		// anything sent after the last step belongs to no group: it is an extra response
-		if extra := st.take(); len(extra) > 0 && len(run.Obs) > 0 {
-			run.Obs[len(run.Obs)-1].Group = append(run.Obs[len(run.Obs)-1].Group, extra...)
-		}
-	} else {
-		cancel()
-		run.Status = "none"
 	}
-	run.Final = dumpCache(ca, c.Targets)
-	return run
+	limit := watchdog
+	if hung {
+		limit = 300 * time.Millisecond
+	}
+	if !drainServer(limit) {
+		for _, run := range runs {
+			if run.Status != "none" {
+				run.Status = "hang"
+			}
+		}
+		for _, id := range goroutineStates().ids {
+			ignoredG[id] = true
+		}
+		hung = true
+	}
+	for i, r := range rpcs {
+		// anything sent after the last step belongs to no group: it is an extra response
+		if extra := r.st.take(); len(extra) > 0 && len(runs[i].Obs) > 0 {
+			n := len(runs[i].Obs) - 1
+			runs[i].Obs[n].Group = append(runs[i].Obs[n].Group, extra...)
+		}
+		if !hung {
+			runs[i].Final = dumpCache(ca, c.Targets)
+		}
+	}
+	return runs
 }
 
 // ---------------------------------------------------------------------------
@@ -779,6 +928,7 @@ type caseFile struct {
 	notis *defs
 	terms []string
 	descs []json.RawMessage
+	view  string
 }
 
 func newCaseFile() *caseFile {
@@ -822,8 +972,17 @@ func (f *caseFile) step(s Step) string {
 		return "SCache (CUpdate " + f.noti(s.N) + ")"
 	case "remove":
 		return fmt.Sprintf("SCache (CRemove %s %s)", f.names.Ref(s.Target), vh.Z(s.Now))
+	case "addtarget":
+		return "SCache (CAdd " + f.names.Ref(s.Target) + ")"
+	case "churn":
+		return "SCache (CChurn " + f.names.Ref(s.Target) + ")"
 	case "sub":
+		if f.view == "b" {
+			return "SPoll" // the other caller's Subscribe: nothing happens for this one
+		}
 		return "SSub"
+	case "sub2":
+		return "SSub" // view b: this caller's Subscribe; view a: ignored (already subscribed)
 	case "poll":
 		return "SPoll"
 	}
@@ -876,18 +1035,23 @@ func (f *caseFile) caseTerm(c *Case) string {
 		}
 		acl = "(Some " + vh.List(rows) + ")"
 	}
+	f.view = c.View
+	cuser, creq := c.User, c.Req
+	if c.View == "b" {
+		cuser, creq = c.User2, c.Req2
+	}
 	user := "None"
-	if c.User != nil {
-		user = "(Some " + f.names.Ref(*c.User) + ")"
+	if cuser != nil {
+		user = "(Some " + f.names.Ref(*cuser) + ")"
 	}
 	req := "None"
-	if c.Req != nil {
-		subs := make([]string, len(c.Req.Subs))
-		for i, s := range c.Req.Subs {
+	if creq != nil {
+		subs := make([]string, len(creq.Subs))
+		for i, s := range creq.Subs {
 			subs[i] = f.optPath(s)
 		}
-		req = fmt.Sprintf("(Some (RQ %s %s %s %s %s))", vh.Bool(c.Req.HasSub), f.optPath(c.Req.Prefix), vh.List(subs),
-			vh.Z(int64(c.Req.Mode)), vh.Bool(c.Req.UpdatesOnly))
+		req = fmt.Sprintf("(Some (RQ %s %s %s %s %s))", vh.Bool(creq.HasSub), f.optPath(creq.Prefix), vh.List(subs),
+			vh.Z(int64(creq.Mode)), vh.Bool(creq.UpdatesOnly))
 	}
 	ops := make([]string, len(c.Ops))
 	for i, s := range c.Ops {
@@ -949,11 +1113,36 @@ type emitter struct {
 
 func (e *emitter) add(family string, c Case) {
 	c.Family = family
-	c.R1 = runScript(&c, true)
-	c.R2 = nil
+	runs1 := runScript(&c, true)
+	var runs2 []*Run
 	if e.twice {
-		c.R2 = runScript(&c, false)
+		runs2 = runScript(&c, false)
 	}
+	if len(runs1) == 2 {
+		// two overlapping calls: one entry per caller, each judged on its own
+		for i, v := range []string{"a", "b"} {
+			if c.View != "" && c.View != v {
+				continue
+			}
+			cv := c
+			cv.View = v
+			cv.R1 = runs1[i]
+			if runs2 != nil {
+				cv.R2 = runs2[i]
+			}
+			e.addOne(family, cv)
+		}
+		return
+	}
+	c.R1 = runs1[0]
+	c.R2 = nil
+	if runs2 != nil {
+		c.R2 = runs2[0]
+	}
+	e.addOne(family, c)
+}
+
+func (e *emitter) addOne(family string, c Case) {
 	e.cf.add(&c)
 	in := c
 	in.R1, in.R2 = nil, nil
@@ -1091,6 +1280,8 @@ var schema = [][]Elem{
 	{el("b", "k", "1"), el("a")}, {el("b", "k", "1"), el("c")}, {el("b", "k", "2"), el("a")},
 	{el("c", "x", "1", "y", "2"), el("b")}, {el("c", "y", "1", "x", "2"), el("b")},
 	{el("b"), el("c"), el("a"), el("b")},
+	// sibling names / key values one of which is a string prefix of the other
+	{el("a"), el("bb")}, {el("b", "k", "10"), el("a")},
 }
 
 // containers stored as one atomic leaf
